@@ -79,6 +79,21 @@ ASSUMPTIONS = ["the symmetric test matrices are Q diag(lambda) Q^T formed in flo
                "overall scales are exact powers of two applied to a matrix of moderate scale, so that condition number and eigenvalue ratios are those of the unscaled matrix",
                "QR_Decomposition of a singular matrix whose remaining first column is exactly zero divides by zero (NaN): outside the quantifier (non-singular matrices)"]
 
+def regenerate():
+    """T-tie: coq/Gen_C15_Formulas.v (Sign(double), Sign(double, double), Relative_Difference of src/Special_Functions.cpp) is regenerated from
+    clang's AST on every run; coq/C15_GenTie.v proves the generated terms equal to the hand model (sign_int, sign_xy, relative_difference of
+    C15_Model2.v, and sign2 of Num.v which householder_alpha uses), so a change of these functions breaks a proof obligation before any case is run."""
+    import os, vbuild, cxx2gallina as c
+    d = "double"
+    fns = [c.Fn("Sign", [d], "g_Sign"), c.Fn("Sign", [d, d], "g_Sign2"), c.Fn("Relative_Difference", [d, d], "g_Relative_Difference")]
+    try:
+        txt = c.translate_all(os.path.join(vbuild.REPO, "src", "Special_Functions.cpp"), fns, [os.path.join(vbuild.REPO, "include")])
+    except c.Unsupported as e:
+        raise RuntimeError(f"tools/cxx2gallina.py cannot translate src/Special_Functions.cpp: {e}")
+    ch = c.write_if_changed(os.path.join(vbuild.VERIF, "coq", "Gen_C15_Formulas.v"), txt)
+    return "Gen_C15_Formulas.v regenerated from the current source" if ch else ""
+
+
 # a call that runs into the runner's time bound is reported by predicates() under "<op>:timeout" (every op)
 ALLOW_TIMEOUT = True
 EPS = 2.0 ** -53
@@ -1135,6 +1150,37 @@ def generate(rng, tier):
         cs.append(Case(_mline("eigenvalues", m), ["eigenvalues", "special"], tol=(1e-9, 1e-300)))
         cs.append(Case(_mline("eigensystem", m), ["eigensystem", "special"], tol=(1e-7, 1e-300)))
         cs.append(Case(_mline("history", m), ["history", "special"], tol=(1e-7, 1e-300)))
+    # ---- seventh pass: the helpers the eigen code rests on, driven directly (coq/C15_Model2.v)
+    # Sign(double), Sign(double, double), Relative_Difference on every pair of signs / zeros / magnitudes
+    sp = [0.0, -0.0, 1.0, -1.0, 5e-324, -5e-324, 2.2250738585072014e-308, 1e-300, -1e-300, 1e300, -1e300, 1.7976931348623157e308, -1.7976931348623157e308, 0.5, -3.25]
+    for x in sp:
+        for y in sp: cs.append(Case(_mline("scalars", [[x, y]]), ["scalars", "special"], tol=(1e-15, 0.0)))
+    for _ in range(2000 if big else 150):
+        x = rng.choice([1.0, -1.0]) * 10 ** rng.uniform(-300, 300); k = rng.random()
+        if k < 0.3: y = x * (1.0 + _rel(rng) * rng.choice([1.0, -1.0]))
+        elif k < 0.4: y = math.nextafter(x, rng.choice([math.inf, -math.inf]))
+        elif k < 0.5: y = -x
+        elif k < 0.55: y = x
+        else: y = rng.choice([1.0, -1.0]) * 10 ** rng.uniform(-300, 300)
+        cs.append(Case(_mline("scalars", [[x, y]]), ["scalars"], tol=(1e-15, 0.0)))
+    # Matrix::Trace / Determinant / Invertible / Inverse with their guards (square and non-square requests), Householder_Matrix statement by statement
+    for _ in range(1200 if big else 90):
+        n = rng.randint(1, 6); m, _ = _gen_dense(rng, n); tags = [f"n={n}"]; k = rng.random()
+        if k < 0.2:
+            m = [[float(rng.randint(-4, 4)) for _ in range(n)] for _ in range(n)]; tags.append("small-integers")
+            if n >= 2 and rng.random() < 0.5: m[n - 1] = [a + b for a, b in zip(m[0], m[n - 2])] if n >= 3 else [2.0 * a for a in m[0]]; tags.append("dependent-rows")
+        elif k < 0.3:
+            e, st = _pick_scale(rng, tame=True); m, e = _scale_finite(m, e); tags.append(st)
+        cs.append(Case(_mline("trace", m), ["trace"] + tags, tol=T0))
+        cs.append(Case(_mline("invertible", m), ["invertible"] + tags))
+        if rng.random() < 0.5: cs.append(Case(_mline("detg", m), ["detg"] + tags, tol=T0))
+        if rng.random() < 0.5: cs.append(Case(_mline("invg", m), ["invg"] + tags, tol=(1e-9, 0.0)))
+        if "small-integers" not in tags and rng.random() < 0.5: cs.append(Case(_mline("householder_steps", m), ["householder_steps"] + tags, tol=T0))
+    for _ in range(200 if big else 24):
+        r_, c_ = rng.randint(1, 5), rng.randint(1, 5)
+        if r_ == c_: c_ += 1
+        m = [[rng.gauss(0, 1) for _ in range(c_)] for _ in range(r_)]
+        for op_ in ("trace", "detg", "invertible", "invg"): cs.append(Case(_mline(op_, m), [op_, "guard", "non-square"]))
     return cs
 
 
@@ -1190,6 +1236,9 @@ def nontrivial(c, io):
         return c.info.get("kappa", 1.0) > 1e3 or any(m[i][0] == 0.0 for i in range(n)) or "guard" in " ".join(c.tags) or abs(e) > 12 or _near_reduced(m)
     if op == "session": return True
     if op == "rayleigh": return n >= 2
+    if op == "scalars": return m[0][0] == 0.0 or m[0][1] == 0.0 or (m[0][0] > 0) != (m[0][1] > 0) or abs(m[0][0] - m[0][1]) <= 1e-6 * abs(m[0][0])
+    if op in ("trace", "detg", "invertible", "invg"): return any(len(r) != n for r in m) or n >= 3 or "dependent-rows" in c.tags
+    if op == "householder_steps": return n >= 2
     if op in ("eigenvalues", "eigensystem", "eigenvectors", "history"):
         lam = c.info.get("lam")
         if not lam: return True
@@ -1323,6 +1372,46 @@ def predicates(c, io):
     if io.startswith(("CRASH", "SANITIZER", "HARNESSERR")): return out
     o = parse_vals(io)
     exited = io.startswith("EXIT"); timeout = io.startswith("TIMEOUT")
+    if op in ("trace", "detg", "invertible", "invg", "scalars") and timeout: return [(f"{op}:timeout", f"{op} did not terminate within the time bound")]
+    if op == "scalars":
+        # Sign(x), Sign(y), Sign(x, y), Sign(y, x), Relative_Difference(x, y) against their definitions
+        if exited: return [("scalars:exit", "a scalar helper terminated the process")]
+        x, y = m[0][0], m[0][1]; sg = lambda t: 1 if t > 0 else 0 if t == 0 else -1
+        if o[0] != sg(x) or o[1] != sg(y): out.append(("scalars:sign", f"Sign({x!r}) = {o[0]}, Sign({y!r}) = {o[1]}"))
+        for got, a, b in ((o[2], x, y), (o[3], y, x)):
+            want = a if sg(a) == sg(b) else -a
+            if not (got == want): out.append(("scalars:sign-transfer", f"Sign({a!r}, {b!r}) = {got!r}, expected {want!r}"))
+        rd = o[4]; mx = max(abs(x), abs(y))
+        if _isnan(rd): out.append(("scalars:reldiff-nan", f"Relative_Difference({x!r}, {y!r}) is NaN"))
+        elif mx == 0.0:
+            if rd != 0.0: out.append(("scalars:reldiff-zero", f"Relative_Difference({x!r}, {y!r}) = {rd!r}, not 0"))
+        else:
+            want = abs(Fraction(x) - Fraction(y)) / Fraction(mx)          # exact; two roundings (difference, quotient) + the overflow of x - y to infinity
+            if math.isinf(x - y): pass
+            elif not abs(Fraction(rd) - want) <= 4 * Fraction(EPS) * want + Fraction(2) ** -1074 / Fraction(mx) + Fraction(2) ** -1074: out.append(("scalars:reldiff-value", f"Relative_Difference({x!r}, {y!r}) = {rd!r}, exact {float(want)!r}"))
+            if not (0.0 <= rd <= 2.0) and not math.isinf(x - y): out.append(("scalars:reldiff-range", f"Relative_Difference({x!r}, {y!r}) = {rd!r} outside [0, 2]"))
+        return out
+    if op in ("trace", "detg", "invertible", "invg"):
+        square = all(len(r) == n for r in m)
+        if not square:
+            if op == "invertible":
+                if exited or o[0] != 0: out.append(("invertible:guard", "Invertible() of a non-square matrix is not false"))
+            elif not exited: out.append((f"{op}:guard", f"{op} accepted a non-square matrix"))
+            return out
+        if op == "trace":
+            if exited: return [("trace:exit", "Trace terminated the process on a square matrix")]
+            want = math.fsum(m[i][i] for i in range(n)); sc = math.fsum(abs(m[i][i]) for i in range(n))
+            if not abs(o[0] - want) <= 2 * n * EPS * sc: out.append(("trace:value", f"Trace = {o[0]!r}, exact {want!r}"))
+            return out
+        if op == "invertible":
+            det = _det_exact(m)
+            if exited: return [("invertible:exit", "Invertible terminated the process")]
+            exact = all(float(x).is_integer() and abs(x) <= 16 for r in m for x in r)       # small integers: the Laplace sum is exact
+            if det == 0 and exact and o[0] != 0: out.append(("invertible:singular", "Invertible() is true for an exactly singular small-integer matrix"))
+            if det != 0 and (exact or "small-integers" not in c.tags) and abs(_normalise(m)[1]) * n < 900 and o[0] != 1: out.append(("invertible:regular", "Invertible() is false for a non-singular matrix of moderate scale"))
+            return out
+        op = "det" if op == "detg" else "inverse"
+    if op == "householder_steps": op = "householder"
     if op == "qr":
         if any(len(r) != n for r in m):
             if not exited: out.append(("qr:guard", "QR_Decomposition accepted a non-square matrix"))
